@@ -146,6 +146,7 @@ type prioExec struct {
 	stopIssued          bool
 	stopRet             atomic.Bool
 	runningAtStopReturn atomic.Int64
+	blockedAtStopReturn atomic.Value // string: stack of a library goroutine found blocked when a Stop() call returned
 	gracefulOn          bool
 	gracefulRt          atomic.Bool
 	gracefulSeen        bool
@@ -488,6 +489,11 @@ func (x *prioExec) checkTermination(what string) {
 	}
 	if len(x.held) > 0 {
 		x.fail("C07", "early-termination", "%s although %d delivered items were not yet released (%v)", what, len(x.held), x.heldBy)
+		// a closed channel is termination for whoever only watches that channel (C19): nothing
+		// the discipline started may be left then - here something obviously still waits
+		if left := bubbleCensus(x.ctl); left != "" {
+			x.fail("C19", "leak-at-early-closure:"+x.sc.Ver, "%s while %d delivered items were unreleased, and goroutine(s) started by the discipline remain (1us virtual later, blocked): %s", what, len(x.held), firstLines(left, 10))
+		}
 		for _, d := range x.held {
 			if c := x.chans[d.It.Ch]; c != nil && c.removed {
 				x.fail("C17", "removed-priority-forgotten", "%s although an item of priority %d, whose input was removed / replaced while the item was in flight, had not been fed back yet: in-flight items of a removed priority must stay accounted for", what, c.P)
